@@ -9,7 +9,7 @@ PROPS = {
     "C02": _crdt("C02", 2500, 10000),
     "C03": _crdt("C03", 2500, 10000),
     "C04": _crdt("C04", 3000, 16000),
-    "C05": _crdt("C05", 1500, 6000),
+    "C05": _crdt("C05", 3500, 8000),
     "C16": _crdt("C16", 3000, 20000),
     "C06": {"jobs": [{"pkg": "auth", "run": "^TestC06$", "checks_quick": 3000, "checks_thorough": 16000, "shards_thorough": 16, "wal": True}]},
     "C07": {"jobs": [{"pkg": "auth", "run": "^TestC07$", "checks_quick": 20000, "checks_thorough": 150000, "shards_thorough": 16}]},
